@@ -6,6 +6,7 @@ import OptreeModel.Lemmas.EncPrefix
 import OptreeModel.Lemmas.EncFlatten
 import OptreeModel.Lemmas.UpToPrefix
 import OptreeModel.Lemmas.PrefixOrder
+import OptreeModel.Lemmas.PrefixErrors
 
 namespace Optree
 
@@ -280,5 +281,49 @@ example : C07_witnessA.wf = true ∧ C07_witnessB.wf = true ∧
 example : isPrefix (C07_witnessA.spec false "") (C07_witnessB.spec false "") true = .ok true := by
   rw [C07_is_prefix_strict_iff _ _ (by decide) (by decide)]
   exact congrArg _ (by decide)
+
+/-! ### the third implementation: `prefix_errors` -/
+
+/-- **`prefix_errors` reports nothing exactly when `flatten_up_to` succeeds** — for every prefix tree without
+registered custom nodes (leaves, None, tuple, list, deque, dict / OrderedDict / defaultdict in either dict-order
+mode, unregistered namedtuple and struct-sequence classes, any nesting), every full tree, every registry,
+`none_is_leaf` and namespace, no predicate.  *Partial*: the full statement also covers prefix trees with
+registered custom nodes (there the Python side goes through `tree_flatten_one_level`, which additionally
+validates what the flatten function of the *full* tree's node returns, where `flatten_up_to` does not look at
+its entries: equality then needs well-behaved flatten functions and a consistent registry); those are
+decided by the correspondence stream (`(prefix_errors …)` lines incl. misbehaving flatten functions) and the
+oracle. -/
+theorem C07_prefix_errors_agree_partial (cfg : Cfg) (hp : cfg.pred = Option.none) (p : PyObj)
+    (hwf : p.wf = true) (hnc : p.noCustom cfg = true) (ls : List PyObj) (sp : Spec)
+    (h : flatten cfg p = .ok (ls, sp)) (hns : sp.ns = cfg.ns) (t : PyObj) :
+    prefixErrors cfg p t = .ok [] ↔ ∃ subtrees, flattenUpTo cfg.reg sp t = .ok subtrees := by
+  obtain ⟨e, _⟩ := flatten_shapeOf cfg hp p hwf ls sp h
+  obtain ⟨w, _⟩ := wg cfg (!cfg.insertionOrdered) p hwf
+  rw [e, hns, flattenUpTo_enc cfg.reg _ w]
+  exact pe_agree cfg (!cfg.insertionOrdered) hp p hnc [] t
+
+/-- the tree-level form (no treespec involved): against the structural matcher -/
+theorem C07_prefix_errors_structural_partial (cfg : Cfg) (hp : cfg.pred = Option.none) (p : PyObj)
+    (hnc : p.noCustom cfg = true) (t : PyObj) :
+    prefixErrors cfg p t = .ok [] ↔
+      ∃ subtrees, STree.upTo cfg.reg cfg.noneIsLeaf cfg.ns (shapeOf cfg (!cfg.insertionOrdered) p) t = .ok subtrees :=
+  pe_agree cfg (!cfg.insertionOrdered) hp p hnc [] t
+
+/-- non-vacuity: a defaultdict prefix against an OrderedDict in another key order matches; against a renamed key
+it reports one `keys` error at the root; a tuple against a list one `types` error at the path -/
+def okIs (r : Except Err PErrs) (es : PErrs) : Bool :=
+  match r with
+  | .ok a => a == es
+  | .error _ => false
+
+example :
+    let cfg : Cfg := {}
+    let p : PyObj := .list [.ddict (some 0) [(.str "b", .leaf 0 1), (.str "a", .tuple [.leaf 0 2])]]
+    p.noCustom cfg = true ∧ p.wf = true ∧
+    okIs (prefixErrors cfg p (.list [.odict [(.str "a", .tuple [.none]), (.str "b", .list [])]])) [] = true ∧
+    okIs (prefixErrors cfg p (.list [.dict [(.str "a", .tuple [.none]), (.str "c", .list [])]])) [(.keys, [.int 0])] = true ∧
+    okIs (prefixErrors cfg p (.list [.dict [(.str "a", .list [.none]), (.str "b", .list [])]]))
+      [(.types, [.int 0, .str "a"])] = true := by decide
+
 
 end Optree
